@@ -1391,7 +1391,26 @@ handle_null_request(int tun_fd, int dns_fd, struct dnsfd *dns_fds, struct query 
 
 		process_downstream_ack(userid, dn_seq, dn_frag);
 
-		if (up_seq == users[userid].inpacket.seqno &&
+		if (up_seq == users[userid].inpacket.seqno && up_frag == 0 &&
+			users[userid].inpacket.fragment == 0 &&
+			users[userid].inpacket.offset > 0 &&
+			((read = unpack_data(unpacked, sizeof(unpacked), &(in[5]), domain_len - 5,
+					     users[userid].encoder)) != users[userid].inpacket.offset ||
+			 memcmp(unpacked, users[userid].inpacket.data, read) != 0)) {
+			/* We hold the first fragment of a packet with this
+			   seqno, and this is a first fragment too, but not a
+			   repeat of it: the client gave that packet up and its
+			   seqno has come round (we saw nothing of the seven in
+			   between). Start over; appending the next fragment
+			   to the old one would merge two packets. */
+			if (debug >= 1) {
+				fprintf(stderr, "IN   pkt seq# %d, frag %d, replaces a different first fragment\n",
+					up_seq, up_frag);
+			}
+			users[userid].inpacket.len = 0;
+			users[userid].inpacket.offset = 0;
+		}
+		else if (up_seq == users[userid].inpacket.seqno &&
 			up_frag <= users[userid].inpacket.fragment) {
 			/* Got repeated old packet _with data_, probably
 			   because client didn't receive our ack. So re-send
